@@ -8,6 +8,7 @@ import BstreamVerif.Drv.IndexDrv
 import BstreamVerif.Drv.FileDrv
 import BstreamVerif.Drv.StreamDrv
 import BstreamVerif.Drv.ConcDrv
+import BstreamVerif.Drv.HubReady
 /-
 bsmodel: reads the harness file (op / impl lines grouped in cases) on stdin, prints for every `op`
 line the model's answer (`model …`) and the monitor verdict on the implementation's answer.
@@ -40,6 +41,7 @@ def statefulCase (suite : String) (hdr : List String) (body : List (List String)
   | "shutdown" => some (ConcDrv.handleShutdown hdr body)
   | "hubsubs" => some (ConcDrv.handleHubSubs hdr body)
   | "serverconc" => some (ConcDrv.handleServerConc hdr body)
+  | "hubready" => some (HubReady.handle hdr body)
   | _ => none
 
 def processCase (out : IO.FS.Stream) (hdr : List String) (body : Array (List String)) : IO Unit := do
